@@ -172,9 +172,35 @@ def check(ctx):
     # reac.rateexpr(grain) itself, nothing catches NotImplementedError and substitutes a rate (shared with C06.R1)
     from .c06 import _r1 as assignment_rule
     ctx.absorb(assignment_rule, "R9")
+    _r9_refusal_not_caught(ctx, pkg)
     # occurrences count: no set / dict keyed by the species stands between a reactant list and the terms built from it
     from ..multiplicity import rule as multiplicity_rule
     multiplicity_rule(ctx, "R10", ['grain'], "the surface rate coefficient")
+
+
+def _r9_refusal_not_caught(ctx, pkg):
+    """Positive half of R9: wherever the package asks for a rate expression (`<x>.rateexpr(..)`), the call does not sit in a `try`
+    whose handler catches the refusal (NotImplementedError, or a class above it) and carries on without re-raising."""
+    CATCHES = {"NotImplementedError", "RuntimeError", "Exception", "BaseException"}
+    n = 0
+    for file, mod in pkg.modules.items():
+        for t in ast.walk(mod):
+            if not isinstance(t, ast.Try):
+                continue
+            calls = [c for st in t.body for c in ast.walk(st) if isinstance(c, ast.Call) and isinstance(c.func, ast.Attribute) and c.func.attr == "rateexpr"]
+            if not calls:
+                continue
+            n += 1
+            for h in t.handlers:
+                names = {"BaseException"} if h.type is None else {ast.unparse(e).split(".")[-1] for e in (h.type.elts if isinstance(h.type, ast.Tuple) else [h.type])}
+                if not (names & CATCHES):
+                    continue
+                reraises = any(isinstance(x, ast.Raise) for st in h.body for x in ast.walk(st))
+                ctx.check(reraises, "R9", f"{file}:rateexpr() refusal handled", (file, h.lineno),
+                          "the handler re-raises" if reraises else
+                          f"`except {', '.join(sorted(names))}` around {ast.unparse(calls[0])[:50]} carries on without raising: a request the dust model refuses "
+                          "(NotImplementedError) yields a substitute rate instead of an error", expected="no handler, or a handler that re-raises", found=ast.unparse(h)[:100])
+    ctx.stats["try_blocks_around_rateexpr"] = n
 
 
 def _r8(ctx, pkg):
